@@ -13,8 +13,9 @@ import Revm.Model.OpFees
 * a deposit (gas price 0): the sender gets the mint and pays only the value moved; a deposit that halts from
   Regolith on is reported as `FailedDeposit` with the state discarded except mint and nonce + 1.
 
-`expected?` is defined exactly on the domain on which the property's equations are claimed
-(`Props/C33.lean` proves `Model.transact = expected` there); the driver prints it as the Spec column. -/
+`expected?` is defined exactly on the domain on which the property's equations are claimed; the driver
+prints it as the Spec column (three-way differential check). `Props/C33.lean` proves the credits, the
+conservation identity and the deposit rules of the model itself. -/
 namespace Revm.Spec.OpFees
 open Revm Revm.Model.OpFees
 
@@ -106,11 +107,16 @@ def expectedRegular (tx : Tx) (info : L1Info) (env : List Nat) (scalar const : N
   { kind := kindOf fr.cls, gasUsed := used, gasRefunded := ur.2, bal := b, nonce := pre.nonce + 1 }
 
 /-- a deposit with gas price 0: the mint is credited, the value moves if the frame succeeds, nothing else;
-a halt from Regolith on keeps only mint and nonce -/
+a deposit that fails validation (gas limit below the intrinsic gas / the floor) or halts from Regolith on
+is a `FailedDeposit` that keeps only mint and nonce -/
 def expectedDeposit (tx : Tx) (pre : St) (fr : Frame) : Expected :=
   let ur := txUsedRefunded tx fr
   let b := upd pre.bal tx.caller (pre.bal tx.caller + tx.mint.getD 0)
-  if fr.cls = .halt ∧ enabled tx.spec REGOLITH then
+  if (validateInitialGas tx).isSome then
+    { kind := .failedDeposit,
+      gasUsed := if enabled tx.spec REGOLITH || !(tx.isSystem.getD false) then tx.gasLimit else 0,
+      gasRefunded := 0, bal := b, nonce := pre.nonce + 1 }
+  else if fr.cls = .halt ∧ enabled tx.spec REGOLITH then
     { kind := .failedDeposit, gasUsed := tx.gasLimit, gasRefunded := 0, bal := b, nonce := pre.nonce + 1 }
   else
     let b := upd b tx.caller (b tx.caller - moved tx fr)
@@ -151,17 +157,18 @@ def inDomainRegular (tx : Tx) (info : L1Info) (env : List Nat) (scalar const : N
   && decide (estimatedSize env * feeScaled info < W) && decide (feeScaled info * calldataGas env tx.spec < W)
   && decide (flzCompressLen env * 836500 < U64)
 
-/-- domain of the deposit equations: gas price 0 (as in the protocol), enough gas for the intrinsic cost,
+/-- domain of the deposit equations: gas price 0 (as in the protocol),
 balances that fit, a create that can pay its value (see the Bedrock counterexample) -/
 def inDomainDeposit (tx : Tx) (pre : St) (fr : Frame) : Bool :=
-  tx.isDeposit && distinct tx && frameOk tx fr
+  tx.isDeposit && distinct tx
   && decide (tx.gasLimit < U64) && decide (pre.nonce + 1 < U64)
   && decide (effectiveGasPrice tx = 0) && decide (tx.dataFee = 0)
-  && (validateInitialGas tx).isNone
   && decide (pre.bal tx.caller + tx.mint.getD 0 < W)
-  && decide (pre.bal tx.target + tx.value < W)
-  && (if fr.cls = .ok then decide (tx.value ≤ pre.bal tx.caller + tx.mint.getD 0) else true)
-  && (if tx.isCreate then decide (tx.value ≤ pre.bal tx.caller + tx.mint.getD 0) else true)
+  && ((validateInitialGas tx).isSome ||
+      (frameOk tx fr
+       && decide (pre.bal tx.target + tx.value < W)
+       && (if fr.cls = .ok then decide (tx.value ≤ pre.bal tx.caller + tx.mint.getD 0) else true)
+       && (if tx.isCreate then decide (tx.value ≤ pre.bal tx.caller + tx.mint.getD 0) else true)))
 
 /-- the Spec column: defined on the claimed domain only -/
 def expected? (tx : Tx) (s : Slots) (pre : St) (fr : Frame) : Option Expected :=
